@@ -183,6 +183,33 @@ func genWire(s *src, o *out) {
 	o.defBytes("client_newline", nl)
 	o.defN("initial_buffer_size", initBuf)
 
+	// ---- the Windows-console framing: sendAction announces it (action.Newline = "!\n") and, for a
+	// Windows server, adopts it (t.transferConfig.Newline = "!\n"); both literals must agree
+	var winNls []string
+	ast.Inspect(s.fn("trzszTransfer.sendAction").Body, func(n ast.Node) bool {
+		if as, ok := n.(*ast.AssignStmt); ok && as.Tok == token.ASSIGN && len(as.Lhs) == 1 && len(as.Rhs) == 1 {
+			l := s.text(as.Lhs[0])
+			if l == "action.Newline" || l == "t.transferConfig.Newline" {
+				if lit, ok := as.Rhs[0].(*ast.BasicLit); ok && lit.Kind == token.STRING {
+					v := s.evalString(lit)
+					if v != nl {
+						winNls = append(winNls, v)
+					}
+				}
+			}
+		}
+		return true
+	})
+	if len(winNls) < 2 {
+		die("sendAction: expected the Windows newline to be announced and adopted, found %q", winNls)
+	}
+	for _, v := range winNls {
+		if v != winNls[0] {
+			die("sendAction: different Windows newlines %q", winNls)
+		}
+	}
+	o.defBytes("windows_newline", winNls[0])
+
 	// ---- reader buffers of the codec stages
 	dec := wireMakeSizes(s, "trzszTransfer.pipelineDecodeData")
 	if len(dec) != 1 {
